@@ -34,6 +34,8 @@ Definition bdeduceK (bx dx ux ax b0 d0 u0 b1 d1 u1 ay : R) : R :=
   let bp := Rltb b1 b0 in
   let dp := Rltb d1 d0 in
   if Bool.eqb bp dp then 0
+  else if (bp && negb dp) && Reqb d0 d1 then 0
+  else if (negb bp && dp) && Reqb b0 b1 then 0
   else
     let pyx := b0 * ax + b1 * rvax + ay * (u0 * ax + u1 * rvax) in
     let px := bx + ax * ux in
@@ -234,9 +236,10 @@ Proof.
   assert (N2 : 1 - (bx + ax * ux) <> 0) by lra.
   assert (N3 : ay <> 0) by lra.
   assert (N4 : 1 - ay <> 0) by lra.
-  destruct (Rltb_spec b1 b0) as [Hb|Hb], (Rltb_spec d1 d0) as [Hd|Hd]; cbn [Bool.eqb];
-    try reflexivity; rewrite ?ltb_some.
+  destruct (Rltb_spec b1 b0) as [Hb|Hb], (Rltb_spec d1 d0) as [Hd|Hd]; cbn [Bool.eqb andb negb];
+    try reflexivity; rewrite ?ltb_some, ?eqb_some.
   - (* Case II *)
+    destruct (Reqb_spec d0 d1) as [Ed|Ed]; [reflexivity|].
     destruct (Rltb_spec (b1 + ay * (1 - b1 - d0))
                 (b0 * ax + b1 * (1 - ax) + ay * (u0 * ax + u1 * (1 - ax)))) as [Hr|Hr],
              (Rltb_spec ax (bx + ax * ux)) as [Hp|Hp].
@@ -246,6 +249,7 @@ Proof.
       rewrite div_some by (apply Rmult3_neq0; try assumption; lra). reflexivity.
     + rewrite div_some by (apply Rmult2_neq0; assumption). reflexivity.
   - (* Case III *)
+    destruct (Reqb_spec b0 b1) as [Eb|Eb]; [reflexivity|].
     destruct (Rltb_spec (b0 + ay * (1 - b0 - d1))
                 (b0 * ax + b1 * (1 - ax) + ay * (u0 * ax + u1 * (1 - ax)))) as [Hr|Hr],
              (Rltb_spec ax (bx + ax * ux)) as [Hp|Hp].
@@ -267,9 +271,14 @@ Proof.
   assert (Ex : dx = 1 - bx - ux) by lra.
   pose proof (thr_II ax b0 d0 b1 d1 ay) as T2. pose proof (thr_III ax b0 d0 b1 d1 ay) as T3.
   unfold bdeduceK, kR, mixR.
-  destruct (Rltb_spec b1 b0) as [Hb|Hb], (Rltb_spec d1 d0) as [Hd|Hd]; cbn [Bool.eqb];
+  destruct (Rltb_spec b1 b0) as [Hb|Hb], (Rltb_spec d1 d0) as [Hd|Hd]; cbn [Bool.eqb andb negb];
     try reflexivity.
   - (* Case II *)
+    destruct (Reqb_spec d0 d1) as [Ed|Ed].
+    { (* tie: the second argument of the min is 0 *)
+      subst d1. replace ((1 - ax) * (d0 - d0) / (1 - ay)) with 0 by (field; lra).
+      rewrite Rmin_right; [ring|].
+      apply Rmult_le_pos; [apply Rmult_le_pos; lra|left; apply Rinv_0_lt_compat; lra]. }
     destruct (Rltb_spec (b1 + ay * (1 - b1 - d0))
                 (b0 * ax + b1 * (1 - ax) + ay * (u0 * ax + u1 * (1 - ax)))) as [Hr|Hr],
              (Rltb_spec ax (bx + ax * ux)) as [Hp|Hp].
@@ -283,6 +292,10 @@ Proof.
     + rewrite Rmin_left by (apply frac_le; [lra|lra|rewrite E0, E1 in Hr; lra]).
       rewrite Ex. field. lra.
   - (* Case III *)
+    destruct (Reqb_spec b0 b1) as [Eb|Eb].
+    { subst b1. replace ((1 - ax) * (b0 - b0) / ay) with 0 by (field; lra).
+      rewrite Rmin_left; [ring|].
+      apply Rmult_le_pos; [apply Rmult_le_pos; lra|left; apply Rinv_0_lt_compat; lra]. }
     destruct (Rltb_spec (b0 + ay * (1 - b0 - d1))
                 (b0 * ax + b1 * (1 - ax) + ay * (u0 * ax + u1 * (1 - ax)))) as [Hr|Hr],
              (Rltb_spec ax (bx + ax * ux)) as [Hp|Hp].
@@ -374,6 +387,7 @@ Lemma bdeduceK_dogmatic bx dx ax b0 d0 u0 b1 d1 u1 ay :
 Proof.
   unfold bdeduceK.
   destruct (Bool.eqb _ _); [reflexivity|].
+  destruct (_ && Reqb d0 d1); [reflexivity|]. destruct (_ && Reqb b0 b1); [reflexivity|].
   destruct (Rltb b1 b0), (Rltb _ _), (Rltb _ _); unfold Rdiv; ring.
 Qed.
 
@@ -553,12 +567,15 @@ Definition bdeduceK_pinned (bx dx ux ax b0 d0 u0 b1 d1 u1 ay : R) : R :=
         else ax * ux * (bi - b0) * (d0 - d1) / ((1 - px) * (1 - ay) * (b1 - b0))
     end.
 
-(* Case II is untouched by the repair *)
+(* Case II is untouched by the repair (ties d0 = d1 apart: the current code returns 0 there at once) *)
 Lemma bdeduceK_pinned_caseII bx dx ux ax b0 d0 u0 b1 d1 u1 ay :
-  b1 < b0 -> bdeduceK_pinned bx dx ux ax b0 d0 u0 b1 d1 u1 ay = bdeduceK bx dx ux ax b0 d0 u0 b1 d1 u1 ay.
+  b1 < b0 -> d0 <> d1 ->
+  bdeduceK_pinned bx dx ux ax b0 d0 u0 b1 d1 u1 ay = bdeduceK bx dx ux ax b0 d0 u0 b1 d1 u1 ay.
 Proof.
-  intros Hb. unfold bdeduceK_pinned, bdeduceK.
-  destruct (Rltb_spec b1 b0) as [_|N]; [reflexivity|contradiction].
+  intros Hb Hd. unfold bdeduceK_pinned, bdeduceK.
+  destruct (Rltb_spec b1 b0) as [_|N]; [|contradiction].
+  destruct (Reqb_spec d0 d1) as [E|_]; [contradiction|].
+  cbn [negb andb]. rewrite !andb_false_r. reflexivity.
 Qed.
 
 Ltac decide_ltb :=
@@ -579,7 +596,8 @@ Qed.
 Lemma bdeduceK_fixed_witness :
   bdeduceK (1/16) (6/16) (9/16) (1/4) 0 (10/16) (6/16) 0 (5/16) (11/16) (3/4) = 0.
 Proof.
-  unfold bdeduceK, mixR. decide_ltb. cbn [Bool.eqb]. decide_ltb. field.
+  unfold bdeduceK, mixR. decide_ltb. cbn [Bool.eqb andb negb].
+  rewrite (proj2 (Reqb_true 0 0)) by reflexivity. reflexivity.
 Qed.
 
 Lemma in_unit_neg eps (a : R) : a < - eps -> in_unit (B:=FldR) eps (Some a) = false.
@@ -671,9 +689,42 @@ Qed.
 
 (* the copy differs from the model only where Case III is entered *)
 Lemma bdeduce_pinned_same_caseII {B : Fld} (eps : F B) x b0 d0 u0 b1 d1 u1 ay :
-  gtb b0 b1 = true ->
+  gtb b0 b1 = true -> eqb d0 d1 = false ->
   bdeduce_pinned eps x (b0, d0, u0) (b1, d1, u1) ay = bdeduce eps x (b0, d0, u0) (b1, d1, u1) ay.
-Proof. intros H. unfold bdeduce_pinned, bdeduce. rewrite H. reflexivity. Qed.
+Proof.
+  intros H E. unfold bdeduce_pinned, bdeduce. rewrite H, E.
+  cbn [negb andb]. rewrite !andb_false_r. reflexivity.
+Qed.
+
+(* ------------------------------------------------ tied conditionals (any arithmetic) *)
+(* The result with the correction term K = 0. *)
+Definition bdeduce_k0 {B : Fld} (eps : F B) (x : bop (B:=B)) (c0 c1 : @V B * @V B * @V B)
+    (ay : @V B) : option (bop (B:=B)) :=
+  let '(b0, d0, u0) := c0 in
+  let '(b1, d1, u1) := c1 in
+  let ax := ba x in
+  let rvax := sub one ax in
+  let mix := fun (v0 v1 : @V B) =>
+    add (add (mul (bb x) v0) (mul (bd x) v1))
+        (mul (bu x) (add (mul v0 ax) (mul v1 rvax))) in
+  btry_new eps (sub (mix b0 b1) (mul ay zero)) (sub (mix d0 d1) (mul (sub one ay) zero))
+           (add (mix u0 u1) zero) ay.
+
+(* Case I, and Cases II / III when the conditionals tie in the component that bounds K: the code takes K = 0
+   without evaluating the A/B threshold or any quotient.  This holds for EVERY arithmetic (no law of the
+   comparisons is used), in particular for floating point, where the rounded threshold comparison could
+   otherwise select a branch whose quotient is 0/0. *)
+Lemma bdeduce_tie {B : Fld} (eps : F B) x b0 d0 u0 b1 d1 u1 ay :
+  gtb b0 b1 = gtb d0 d1 \/ (gtb b0 b1 = true /\ eqb d0 d1 = true) \/ (gtb d0 d1 = true /\ eqb b0 b1 = true) ->
+  bdeduce eps x (b0, d0, u0) (b1, d1, u1) ay = bdeduce_k0 eps x (b0, d0, u0) (b1, d1, u1) ay.
+Proof.
+  intros H. unfold bdeduce, bdeduce_k0.
+  destruct H as [H|[[H E]|[H E]]]; rewrite ?H, ?E.
+  - rewrite Bool.eqb_reflx. reflexivity.
+  - destruct (gtb d0 d1); cbn [Bool.eqb negb andb]; reflexivity.
+  - destruct (gtb b0 b1); cbn [Bool.eqb negb andb]; [reflexivity|].
+    destruct (eqb d0 d1); reflexivity.
+Qed.
 
 (* ------------------------------- K in the four A/B branches, as in the literature *)
 Section Branches.
